@@ -48,7 +48,20 @@ Latitude (DESIGN C11-L)
     merges the sub-rows of a feature).  reparse.reexport compares gene / transcript / exon / CDS rows as multisets with
     ID / Parent replaced by the content of the parent row, only for models whose identifier fields are all set, and only when
     the parse leg found no difference for that file (otherwise the difference is already reported once).
-  * chunk parents: only windows containing every member (a window cutting a member is C07's subject).
+  * chunk parents: only windows containing every member (a window cutting a member is C07's subject).  In chunk-relative
+    mode the frames of a CDS may be the uninterrupted frame that starts with the 5' block's frame instead of the annotated
+    vector (CDSInterval.chunk_relative_frames documents that programmed-frameshift annotation is lost there).
+  * a feature collection whose members lie on both strands makes the parser refuse the whole file with its documented
+    GFF3ChildParentMismatchError (it folds the members into one interval): counted (counters.parser-refused-mixed-strand-
+    feature-collection), not an alarm - the parse leg of the property is about genes; 90 % of the re-parse cases keep the
+    members of a feature collection on one strand so that the genes of those files are compared.
+  * Name is optional in GFF3: when a row carries it, it must be the display name of the row's object.
+
+Findings on the unchanged tree (see classify(); repairs in /verif/proposed_fixes/C11-*.diff)
+  F7  transcript biotype read from the gene row        F9  user keys with an identifier prefix dropped on re-parse
+  F16 chunk-relative FASTA record named 'name:start-end' (own parser: KeyError)
+  K4  percent-encoded keys come back encoded (optional repair)      K41 transcripts with identical CDS share CDS row IDs
+  K13 (known from C05) reached through chunk_relative_frames
 """
 import io
 import os
@@ -75,19 +88,19 @@ RULE = (
     "frames / adjacency; feature block counts; hostile character classes present; None-field pattern; export modes); non-trivial "
     "= some transcript is multi-exon, coding or minus-strand, or a hostile character is present."
 )
-SCOPE = {"quick": {"N": 1900}, "thorough": {"N": 26000}}
-FLOOR = {"quick": 600, "thorough": 6000}
+SCOPE = {"quick": {"N": 4800}, "thorough": {"N": 48000}}
+FLOOR = {"quick": 1500, "thorough": 15000}
 _SYNTAX = ["gff.columns", "gff.structure", "gff.coords", "gff.strand", "gff.phase", "gff.unique-ids", "gff.parent-earlier", "gff.sorted",
            "gff.reserved-attrs", "gff.attr-decode", "gff.fasta"]
 _LIB = ["reparse.parses", "reparse.structure", "reparse.identifiers", "reparse.qualifiers", "reparse.sequence", "reparse.reexport"]
 REQUIRED_MONITORS = _SYNTAX + _LIB
 _P = "inscripta.biocantor."
-REACH = [
-    _P + "io.gff3.rows:GFFAttributes.__str__", _P + "io.gff3.rows:GFFAttributes.escape_key", _P + "io.gff3.rows:GFFAttributes.escape_value",
-    _P + "io.gff3.rows:GFFRow.__str__", _P + "io.gff3.writer:collection_to_gff3",
+REACH = [   # gene.* first: importing io.gff3.rows before inscripta.biocantor.gene runs into the package's import cycle
     _P + "gene.collections:AnnotationCollection.to_gff", _P + "gene.gene:GeneInterval.to_gff", _P + "gene.transcript:TranscriptInterval.to_gff",
     _P + "gene.cds:CDSInterval.to_gff", _P + "gene.feature:FeatureInterval.to_gff", _P + "gene.feature:FeatureIntervalCollection.to_gff",
     _P + "gene.cds_frame:CDSFrame.to_phase",
+    _P + "io.gff3.rows:GFFAttributes.__str__", _P + "io.gff3.rows:GFFAttributes.escape_key", _P + "io.gff3.rows:GFFAttributes.escape_value",
+    _P + "io.gff3.rows:GFFRow.__str__", _P + "io.gff3.writer:collection_to_gff3",
     _P + "io.gff3.parser:_parse_genes", _P + "io.gff3.parser:_convert_features_to_transcript", _P + "io.gff3.parser:filter_and_sort_qualifiers",
     _P + "io.gff3.parser:parse_standard_gff3", _P + "io.gff3.parser:parse_gff3_embedded_fasta", _P + "io.gff3.parser:extract_seqrecords_from_gff3_fasta",
 ]
@@ -443,6 +456,7 @@ def expected_tree(cspec, off=0, chunk_relative=False):
                 vecs = frame_vectors(t, chunk_relative)
                 for k, (s, e) in enumerate(t["cds"]):
                     kids.append(_node("CDS", s, e, off, t["strand"], {str((3 - v[k]) % 3) for v in vecs}, t.get("protein_id"), cmust, tmay))
+                    kids[-1]["info"] = {"cds": t["cds"], "frames": t["frames"], "tx_strand": t["strand"]}
             s, e = GG.tx_span(t)
             txs.append(_node("transcript", s, e, off, t["strand"], ".", t.get("transcript_symbol"), tmust, tmay, kids))
         s, e = GG.gene_span(g)
@@ -492,6 +506,10 @@ def _charclass(text):
     return "+".join(out) or "plain"
 
 
+def _classes(texts):
+    return "+".join(sorted({tok for t in texts for tok in _charclass(t).split("+")})) or "plain"
+
+
 def _lookup(attrs, key):
     """Row tag that carries source key `key` (the key itself or its lower-cased form)."""
     for form in (key, key.lower()):
@@ -512,10 +530,10 @@ def _attr_problems(exp, attrs):
     for k, want in exp["must"].items():
         form = _lookup(attrs, k)
         if form is None:
-            out.append(("missing-key", _charclass(k), {"key": k, "row_keys": sorted(attrs)}))
+            out.append(("missing-key", _charclass(k), {"tag": k, "row_keys": sorted(attrs)}))
         elif not want <= set(attrs[form]):
-            out.append(("missing-value", "+".join(sorted({_charclass(v) for v in want - set(attrs[form])})),
-                        {"key": k, "want": sorted(want), "got": attrs[form]}))
+            out.append(("missing-value", _classes(want - set(attrs[form])),
+                        {"tag": k, "want": sorted(want), "got": attrs[form]}))
     may = {}
     for k, s in exp["may"].items():
         for form in (k, k.lower()):
@@ -524,10 +542,10 @@ def _attr_problems(exp, attrs):
         if rk in STRUCTURAL:
             continue
         if rk not in may:
-            out.append(("unexpected-key", _charclass(rk), {"key": rk, "values": vals, "source_keys": sorted(exp["may"])}))
+            out.append(("unexpected-key", _charclass(rk), {"tag": rk, "values": vals, "source_keys": sorted(exp["may"])}))
         elif not set(vals) <= may[rk]:
-            out.append(("unexpected-value", "+".join(sorted({_charclass(v) for v in set(vals) - may[rk]})),
-                        {"key": rk, "got": vals, "source": sorted(may[rk])}))
+            out.append(("unexpected-value", _classes(set(vals) - may[rk]),
+                        {"tag": rk, "got": vals, "source": sorted(may[rk])}))
     return out
 
 
@@ -581,9 +599,12 @@ class _Matcher:
 
 
 def _similarity(e, g):
+    """Only used to word a report: which unmatched file row most likely renders this source object."""
     r = g["row"]
-    return (4 * (e["type"] == r["type"]) + 3 * ((r["start"], r["end"]) == (e["start"], e["end"])) + (r["strand"] in e["strands"])
-            + 2 * all(_lookup(r["attrs"], k) is not None for k in e["must"]) + (len(e["children"]) == len(g["children"])))
+    a = r["attrs"]
+    held = sum(1 for k, want in e["must"].items() if _lookup(a, k) is not None and want <= set(a[_lookup(a, k)]))
+    return (e["type"] == r["type"], held + 2 * (e["name"] is not None and a.get("Name") == [e["name"]]) + (len(e["children"]) == len(g["children"])),
+            -abs(r["start"] - e["start"]) - abs(r["end"] - e["end"]))
 
 
 def _compare_forest(ctx, M, exps, gots, mode, depth=0):
@@ -607,7 +628,7 @@ def _compare_forest(ctx, M, exps, gots, mode, depth=0):
             if mon not in mons:
                 ctx.seen(mon)
         for mon, key, det in probs:
-            ctx.check(mon, False, key=key, mode=mode, row_type=e["type"], line=g["row"]["line"], **det)
+            ctx.check(mon, False, key=key, mode=mode, row_type=e["type"], line=g["row"]["line"], **det, **e.get("info", {}))
         _compare_forest(ctx, M, e["children"], g["children"], mode, depth + 1)
     for g in lg:
         ctx.check("gff.structure", False, key=("unexpected-row", g["row"]["type"], "top" if depth == 0 else "child"), mode=mode, got=_brief_row(g),
@@ -721,6 +742,16 @@ def run_case(case, ctx):
             _one_export(case, exp, reserved, ctx)
 
 
+def teardown(ctx):
+    """The temp files are removed one by one; drop the (then empty) per-process scratch directory as well."""
+    from bcv import env
+
+    try:
+        os.rmdir(env.workdir())
+    except OSError:
+        pass
+
+
 def _build(case, pmode):
     colls = []
     for coll in _colls(case):
@@ -822,8 +853,8 @@ def _qual_check(ctx, who, own, inherited, parsed, mode, gspec=None):
         if form is None:
             ctx.check("reparse.qualifiers", False, key=(who, "missing-key", _charclass(k)), mode=mode, qualifier_key=k, want=sorted(want), parsed_keys=sorted(parsed))
         else:
-            ctx.check("reparse.qualifiers", want <= parsed[form], key=(who, "missing-value", "+".join(sorted({_charclass(v) for v in want - parsed[form]}))),
-                      mode=mode, qualifier_key=k, want=sorted(want), got=sorted(parsed[form]))
+            ctx.check("reparse.qualifiers", want <= parsed[form], key=(who, "missing-value", _classes(want - parsed[form])),
+                      mode=mode, qualifier_key=k, want=sorted(want), got=sorted(parsed[form]), parsed_form=form, source_keys=sorted(set(own) | set(inherited)))
     allowed = {}
     for d in (own, inherited):
         for k, s in d.items():
@@ -837,7 +868,8 @@ def _qual_check(ctx, who, own, inherited, parsed, mode, gspec=None):
             ctx.check("reparse.qualifiers", False, key=(who, "unexpected-key", _charclass(pk)), mode=mode, qualifier_key=pk, values=sorted(vals),
                       source_keys=sorted(set(own) | set(inherited)))
         else:
-            ctx.check("reparse.qualifiers", vals <= allowed[pk], key=(who, "unexpected-value"), mode=mode, qualifier_key=pk, got=sorted(vals), source=sorted(allowed[pk]))
+            ctx.check("reparse.qualifiers", vals <= allowed[pk], key=(who, "unexpected-value"), mode=mode, qualifier_key=pk, got=sorted(vals), source=sorted(allowed[pk]),
+                      parsed_form=pk, source_keys=sorted(set(own) | set(inherited)))
 
 
 def _enum_name(x):
@@ -851,17 +883,14 @@ def _tx_blocks(t, off):
 
 
 def _greedy(sources, parsed, score):
-    """Pairs each source item with its most similar parsed item (for reporting; a faithful parse pairs perfectly)."""
-    left = list(parsed)
-    out = []
-    for s in sources:
-        if not left:
-            out.append((s, None))
-            continue
-        best = max(left, key=lambda p: score(s, p))
-        left.remove(best)
-        out.append((s, best))
-    return out, left
+    """Pairs source items with parsed items, best-scoring pairs first (a faithful parse pairs every item with its own image)."""
+    cand = sorted(((score(s, p), -i, -j) for i, s in enumerate(sources) for j, p in enumerate(parsed)), reverse=True)
+    si, pj = {}, set()
+    for _, i, j in cand:
+        if -i not in si and -j not in pj:
+            si[-i] = -j
+            pj.add(-j)
+    return [(s, parsed[si[i]] if i in si else None) for i, s in enumerate(sources)], [p for j, p in enumerate(parsed) if j not in pj]
 
 
 def _library_leg(case, exp, text, parsed_text, ctx):
@@ -1032,7 +1061,7 @@ def _compare_gene(ctx, g, p, off, mode, chunk_relative=False):
         ctx.check("reparse.structure", pcds == cds, key="cds-blocks", mode=mode, got=pcds, want=cds)
         pfr = [f.value for f in q.cds_frames] if q.cds_frames else None
         ctx.check("reparse.structure", (pfr in frame_vectors(t, chunk_relative)) if cds else pfr is None, key="frames", mode=mode, got=pfr, want=t["frames"],
-                  strand=t["strand"], cds=t.get("cds"))
+                  tx_strand=t["strand"], cds=t.get("cds"), frames=t.get("frames"))
         ctx.check("reparse.structure", q.strand.to_symbol() == t["strand"], key="strand", mode=mode, got=q.strand.to_symbol(), want=t["strand"])
         ident("transcript_id", t.get("transcript_id"), q.transcript_id, "transcript")
         ident("transcript_symbol", t.get("transcript_symbol"), q.transcript_symbol, "transcript")
@@ -1081,16 +1110,22 @@ def classify(v):
         dec, ok = R.unescape(d["qualifier_key"])
         if ok and dec != d["qualifier_key"] and any(any(c in MUST_ESCAPE for c in k) and dec in (k, k.lower()) for k in d.get("source_keys") or []):
             return "K4-escaped-qualifier-key-not-decoded"
+    if mon == "reparse.qualifiers" and len(key) >= 2 and key[1] in ("missing-value", "unexpected-value") and isinstance(d.get("parsed_form"), str):
+        # K4 once more: the tag the values were read from is the still-encoded form of ANOTHER source key (e.g. keys ';' and
+        # '%3B' in one model: ';' comes back as '%3b', which is also the lower-cased text of the second key)
+        for k2 in d.get("source_keys") or []:
+            if any(c in MUST_ESCAPE for c in k2):
+                enc = "".join("%%%02X" % ord(c) if c in MUST_ESCAPE else c for c in k2)
+                if d["parsed_form"] in (enc, enc.lower()):
+                    return "K4-escaped-qualifier-key-not-decoded"
     if mon in ("gff.phase", "reparse.structure") and str(d.get("mode", "")).startswith("chunk-rel") and (mon == "gff.phase" or key == "frames"):
         # K13 (known from C05) reached through chunk_relative_frames -> construct_frames_from_location: the 5' CDS block is
         # shorter than the start offset, the remaining offset is not carried into the next block
-        for coll in _colls(case):
-            for g in coll["spec"]["genes"]:
-                for t in g["transcripts"]:
-                    if t.get("cds") and len(t["cds"]) > 1:
-                        b5, f5 = (t["cds"][-1], t["frames"][-1]) if t["strand"] == "-" else (t["cds"][0], t["frames"][0])
-                        if b5[1] - b5[0] < int(f5):
-                            return "K13-construct-frames-first-block-shorter-than-offset"
+        cds, fr = d.get("cds"), d.get("frames")
+        if isinstance(cds, list) and isinstance(fr, list) and len(cds) > 1 and len(cds) == len(fr):
+            b5, f5 = (cds[-1], fr[-1]) if d.get("tx_strand") == "-" else (cds[0], fr[0])
+            if b5[1] - b5[0] < int(f5):
+                return "K13-construct-frames-first-block-shorter-than-offset"
     if mon == "reparse.identifiers" and d.get("field") == "transcript_type":
         # F7: the parser reads transcript_biotype from the GENE row, which never carries it, and falls back to the gene biotype
         if d.get("want") and d.get("want") != d.get("gene_type") and d.get("got") == d.get("gene_type"):
